@@ -103,7 +103,7 @@ func TestMain(m *testing.M) {
 		os.Exit(0)
 	}
 	harness.Describe(
-		"jobs = (corpus file <= 16 KiB balanced over formats, format (home / probe), force, kind) where kind is 'tree' (decode.Decode + canonical dump of every value: path, range, actual, sym, description, error), or a whole CLI run 'dv' / 'V' (-V JSON) / 'torepr' with per-format options set or unset (-o); failing decodes included. A rapid-drawn schedule is a sequence of batches, each batch runs 1..16 goroutines with their own job lists (same file many times, different formats mixed), every job with its own Interp sharing the process-wide registry; built with -race. Oracle: every result hash equals the job's reference (first sequential in-process run; for a per-run sample also a lone run in a fresh process), in every order and interleaving; any race detector report fails the run. Non-trivial: a batch with >= 4 concurrent jobs of >= 2 formats, or the same job >= 3 times in one schedule; distinct = the schedule.",
+		"jobs = (corpus file <= 16 KiB balanced over formats, format (home / probe), force, kind) where kind is 'tree' (decode.Decode + canonical dump of every value: path, range, actual, sym, description, error), or a whole CLI run 'dv' / 'V' (-V JSON) / 'torepr' with per-format options set or unset (-o); failing decodes included. A rapid-drawn schedule is a sequence of batches, each batch runs 1..16 goroutines with their own job lists (same file many times, different formats mixed), every job with its own Interp sharing the process-wide registry; built with -race. Oracle: every result hash equals the job's reference (first sequential in-process run; for a per-run sample also a lone run in a fresh process), in every order and interleaving; any race detector report fails the run. Further families: the same bytes handed to the decoder as a concatenation of 2..64 parts (a multi reader, short reads at part boundaries) must give the flat decode's hash, with foreign decodes in between; fresh processes whose FIRST decodes run on 8 goroutines at once (cold start) must give the sequential hashes; per format, corrupt variants of a sample file (bits of 1-bit fields and first bits of small fields inverted) decoded in a fresh process after a decode of the intact file with the OTHER force setting must give the hashes of a process that only decoded the variants (an option of an earlier job must not decide a later one). Non-trivial: a batch with >= 4 concurrent jobs of >= 2 formats, or the same job >= 3 times in one schedule; distinct = the schedule.",
 		"the Go scheduler is not owned by the harness: interleavings are explored by repetition and goroutine count only",
 		"a schedule-dependent mismatch may not replay deterministically; the replay command re-runs the schedule 10 times under -race",
 	)
